@@ -135,6 +135,58 @@ def build_ops(seed, tier, d, drv):
         m = suitio.model_create(drv, fdesc, ff)
         ops.append({"id": "fixed" + tag, "kind": "create", "desc": fdesc})
         expect["fixed" + tag] = m["ok"]
+    # the same *relative* spelling of the file names in three working directories, and one absolute path whose content is rewritten
+    # before each operation (a result remembered under the spelling of a path would be stale)
+    def small_desc(fw, dg, sz):
+        return {"SUIT_Envelope_Tagged": {
+            "suit-authentication-wrapper": {"SuitDigest": {"suit-digest-algorithm-id": "cose-alg-sha-256"}},
+            "suit-manifest": {"suit-manifest-version": 1, "suit-manifest-sequence-number": 1,
+                              "suit-install": [{"suit-directive-override-parameters": {
+                                  "suit-parameter-image-digest": {"suit-digest-algorithm-id": "cose-alg-sha-256", "suit-digest-bytes": {"file": fw}},
+                                  "suit-parameter-image-size": {"file": fw}}},
+                                  {"suit-directive-override-parameters": {
+                                      "suit-parameter-image-digest": {"suit-digest-algorithm-id": "cose-alg-sha-256", "suit-digest-bytes": {"file_direct": dg}},
+                                      "suit-parameter-image-size": {"file_direct": sz}}}]},
+            "suit-integrated-payloads": {"#fw": fw}}}
+    for tag, salt in (("A", 1), ("B", 2), ("C", 3)):
+        dd = os.path.join(d, "fixed" + tag)
+        rdesc = small_desc("fw.bin", "digest.bin", "size.txt")
+        ff = {n: open(os.path.join(dd, n), "rb").read() for n in ("fw.bin", "digest.bin", "size.txt")}
+        m = suitio.model_create(drv, rdesc, ff)
+        ops.append({"id": "rel" + tag, "kind": "create", "desc": rdesc, "cwd": dd})
+        expect["rel" + tag] = m["ok"]
+    rw = "@RW@"
+    for tag, salt in (("1", 11), ("2", 12), ("3", 13)):
+        blob = bytes((x * 13 + salt) % 256 for x in range(200 + salt))
+        paths = {n: os.path.join(rw, n) for n in ("fw.bin", "digest.bin", "size.txt")}
+        content = {paths["fw.bin"]: blob, paths["digest.bin"]: hashlib.sha256(blob).digest(), paths["size.txt"]: str(len(blob)).encode()}
+        wdesc = small_desc(paths["fw.bin"], paths["digest.bin"], paths["size.txt"])
+        m = suitio.model_create(drv, wdesc, content)
+        ops.append({"id": "rewrite" + tag, "kind": "create", "desc": wdesc, "pre_write": {a: b.hex() for a, b in content.items()}})
+        expect["rewrite" + tag] = m["ok"]
+    # cache generation from an envelope with several integrated dependencies (the order of the slots is the order in the envelope)
+    for j in range(2 if tier == "quick" else 8):
+        ndeps = 3 + j % 3
+        def leaf(t):
+            return {"SUIT_Envelope_Tagged": {
+                "suit-authentication-wrapper": {"SuitDigest": {"suit-digest-algorithm-id": "cose-alg-sha-256"}},
+                "suit-manifest": {"suit-manifest-version": 1, "suit-manifest-sequence-number": t + 1},
+                "suit-integrated-payloads": {f"#img{j}_{t}_{u}": bytes((t * 31 + u * 7 + x) % 256 for x in range(5 + u)).hex() for u in range(1 + t % 2)}}}
+        names = [f"#dep{j}_{t}.suit" for t in range(ndeps)]
+        rng.shuffle(names)
+        edesc = {"SUIT_Envelope_Tagged": {
+            "suit-authentication-wrapper": {"SuitDigest": {"suit-digest-algorithm-id": "cose-alg-sha-256"}},
+            "suit-manifest": {"suit-manifest-version": 1, "suit-manifest-sequence-number": 9},
+            "suit-integrated-payloads": {f"#top{j}": "aa55"},
+            "suit-integrated-dependencies": {nm: leaf(t) for t, nm in enumerate(names)}}}
+        me = suitio.model_create(drv, edesc, {})
+        if "ok" not in me:
+            continue
+        eb = [1, 8, 16][j % 3]
+        mc = drv.call({"op": "extract.cache", "eb": eb, "envelope": me["ok"], "deps": names})
+        if "ok" in mc:
+            ops.append({"id": f"cacheenv{j}", "kind": "cache_env", "envelope": me["ok"], "eb": eb, "dep": r"#dep.*\.suit"})
+            expect[f"cacheenv{j}"] = mc["ok"]
     for j in range(4 if tier == "quick" else 20):
         args = dict(vendor_name=rng.choice(["nordicsemi.com", "é"]), class_name=f"cls{j}", address=rng.choice([0x1000, 0xFFF0]), size=64,
                     downgrade_prevention_enabled=bool(j % 2), independent_updates=bool(j % 3), signature_verification=[None, "update", "update-and-boot"][j % 3])
